@@ -1,6 +1,6 @@
 (* C13 -- EKF / UKF = Kalman filter on linear-Gaussian systems; covariances valid.
-   Statements only (over R, every dimension); proofs in Proofs/Filter.v, model in Model/Filter.v,
-   matrix algebra in Base/Mat.v.
+   Statements only (over R, every dimension); proofs in Proofs/Filter.v, Filter2.v .. Filter10.v, model in
+   Model/Filter.v, matrix algebra in Base/Mat.v.
 
    Oracles and their contracts (hypotheses, never axioms):
      pinv_ok m pinv       torch.linalg.pinv is the inverse on symmetric positive definite m x m input
@@ -18,12 +18,42 @@
               centre weight is non-negative (and the call returns); PF covariance symmetric PSD --
               every dimension, every nonlinear system, every run length
      PROVED   a run is the fold of the one-step map
+     PROVED   EKF = the Kalman step of the affine system that linearises f at the prior mean and passes
+              through (x, f(x,u)), (f(x,u), h(f(x,u),u)); positive definite Q gives a positive DEFINITE
+              EKF covariance (one step and every run length)
+     PROVED   on a linear system an EKF run and a UKF run (every k > -n) ARE the Kalman run, every length
+     PROVED   the UKF condition "centre weight >= 0" is sharp (1-d witness, k = -1/2: predicted
+              covariance -1)
+     PROVED   PF.forward returns (no IndexError) for uniforms <= 1 and >= 1 particle, with a symmetric PSD
+              (positive definite when Q is) covariance -- every system, every run length; its weights
+              are the normalised Gaussian likelihoods at the observed propagated particles; resampling
+              is the inverse-CDF rule (index i iff c_(i-1) < r <= c_i), keeps the particle count, is
+              unbiased (integral over r of g(index) = sum_i q_i g(i)); the estimate is the mean of the
+              resampled particles = the weighted mean with the empirical weights count_i / N; the
+              particles are x + L eps_t with scatter L (eps^T eps) L^T, L L^T = n P
+     PROVED   the oracle contracts are satisfiable in EVERY dimension (explicit Cholesky factor and
+              inverse by recursion on the dimension)
+     PROVED   the specification itself: the mean of [kf_update] is the UNIQUE minimiser of the negative log
+              posterior (z-xm)^T Pm^-1 (z-xm) + (y-Cz-Du-c2)^T R^-1 (y-Cz-Du-c2) and its covariance is the
+              inverse of the Hessian Pm^-1 + C^T R^-1 C (information form)
+     PROVED   the Monte-Carlo rate of the RESAMPLING stage: over N independent uniform draws (N-fold iterated
+              Riemann integral) the estimate PF.forward returns is unbiased for sum_i q_i xs_i and its variance
+              is sigma^2 / N, conditional on the propagated particles and their weights
+     PROVED   the UKF sigma points reproduce (x, P): weights sum to 1, weighted mean x, weighted covariance P
+     NOT PROVED (tie only): the first stage of the PF (the N normal draws: convergence of sum_i q_i xs_i to the
+              posterior mean of the documented particle model at the Monte-Carlo rate);
+              the measure theory behind "Kalman = Bayes" (a Gaussian's mean is its mode, its covariance the
+              inverse Hessian; the prediction step is the push-forward of a Gaussian)
    History (the [_old] definitions = the code before the repairs), kept as regression documentation:
      REFUTED  old EKF = KF / = documented recursion (innovation at the pre-transition state)
      REFUTED  old UKF = KF (1-d witness: Pxy paired two different sigma sets; 2-d witness: rows of
-              the lower Cholesky factor) *)
+              the lower Cholesky factor)
+     REFUTED  old PF weights = likelihood at the propagated particles (1-d witness: f(x) = -x; the old code
+              weighted by the observation of the particles before the transition) *)
 From Coq Require Import Reals List ZArith.
-From PV Require Import Base.Num Base.Mat Model.Filter Proofs.Filter.
+From Coquelicot Require Import Coquelicot.
+From PV Require Import Base.Num Base.Mat Model.Filter Proofs.Filter Proofs.Filter2 Proofs.Filter3 Proofs.Filter4
+  Proofs.Filter5 Proofs.Filter6 Proofs.Filter7 Proofs.Filter8 Proofs.Filter9 Proofs.Filter10.
 Import ListNotations.
 Local Open Scope R_scope.
 #[local] Remove Hints NumQ NumZ : typeclass_instances.
@@ -46,6 +76,28 @@ Theorem C13_ekf_nonlinear_is_documented_recursion :
   ekf_forward pinv s Q Rm x y u P = ekf_documented pinv s Q Rm x y u P.
 Proof. exact ekf_nonlinear_is_documented_recursion. Qed.
 
+(* the same with only the shapes that are needed (no definiteness, no contract on pinv) *)
+Theorem C13_ekf_linear_is_kf_shapes_only :
+  forall (pinv : matR -> matR) (A B C D : matR) (c1 c2 : list R) (Q Rm : matR) (x y u : list R) (P : matR) (n : nat),
+  wf n n A -> wf n n P ->
+  ekf_forward pinv (lin_system A B C D c1 c2) Q Rm x y u P = kf_step pinv A B C D c1 c2 Q Rm x y u P.
+Proof. exact ekf_documented_linear_is_kf. Qed.
+
+(* "EKF = that recursion applied to the linearisation at the prior mean, innovation at the predicted state":
+   EKF.forward on ANY system IS the Kalman step of the affine system with Jacobians A = sA(x,u), C = sC(x,u)
+   (both at the prior mean: where the code sets the reference point) whose transition passes through
+   (x, f(x,u)) and whose observation passes through (f(x,u), h(f(x,u),u)); B, D arbitrary *)
+Theorem C13_ekf_is_kf_of_linearisation :
+  forall (pinv : matR -> matR) (n m : nat) (s : @system R) (B D Q Rm : matR) (x y u : list R) (P : matR),
+  length x = n -> wf n n (sA s x u) -> wf m n (sC s x u) -> wf n n P ->
+  length (sf s x u) = n -> length (sh s (sf s x u) u) = m ->
+  let A := sA s x u in let C := sC s x u in
+  let xm := sf s x u in
+  let c1 := lin_offset A B xm x u in                (* xm - (A x + B u) *)
+  let c2 := lin_offset C D (sh s xm u) xm u in      (* h(xm,u) - (C xm + D u) *)
+  ekf_forward pinv s Q Rm x y u P = kf_step pinv A B C D c1 c2 Q Rm x y u P.
+Proof. exact ekf_is_kf_of_linearisation. Qed.
+
 (* covariance validity: every dimension, every system (A, C arbitrary well-formed matrices) *)
 Theorem C13_ekf_cov_symmetric_psd :
   forall (pinv : matR -> matR) (n m : nat) (s : @system R) (Q Rm : matR) (x y u : list R) (P : matR) (at_pred : bool),
@@ -55,6 +107,15 @@ Theorem C13_ekf_cov_symmetric_psd :
   let P' := snd (ekf_forward_gen pinv at_pred s Q Rm x y u P) in
   wf n n P' /\ msym P' /\ PSD n P'.
 Proof. exact ekf_cov_symmetric_psd. Qed.
+
+(* positive definite process noise: the covariance is symmetric positive DEFINITE (P only PSD) *)
+Theorem C13_ekf_cov_symmetric_pd :
+  forall (pinv : matR -> matR) (n m : nat) (s : @system R) (Q Rm : matR) (x y u : list R) (P : matR) (at_pred : bool),
+  pinv_ok m pinv ->
+  wf n n (sA s x u) -> wf m n (sC s x u) ->
+  wf n n P -> msym P -> PSD n P -> SPD n Q -> SPD m Rm ->
+  SPD n (snd (ekf_forward_gen pinv at_pred s Q Rm x y u P)).
+Proof. exact ekf_cov_spd. Qed.
 
 (* ------------------------------------------------------------------ UKF *)
 Theorem C13_ukf_linear_is_kf :
@@ -89,6 +150,18 @@ Theorem C13_ukf_predict_linear_is_kf_predict :
     ukf_predict msqrt (lin_system A B C D c1 c2) Q x u P k = Some (kf_predict A B c1 Q x u P).
 Proof. exact ukf_predict_linear_is_kf_predict_holds. Qed.
 
+(* the sigma points of sigma_weight_points reproduce the moments they are built from: 2n+1 points and weights,
+   weights sum to 1, weighted mean = x, weighted covariance about x = P; every k > -n, any factor oracle *)
+Theorem C13_ukf_sigma_points_reproduce_moments :
+  forall (msqrt : matR -> matR) (n : nat) (x : list R) (P : matR) (k : R),
+  factor_ok n msqrt -> (0 < n)%nat -> SPD n P -> length x = n -> 0 < IZR (Z.of_nat n) + k ->
+  exists pts w, sigma_points_gen msqrt true x P k = Some (pts, w) /\
+    length pts = S (n + n) /\ length w = S (n + n) /\
+    sumn (S (n + n)) (vget w) = 1 /\
+    wsum_rows w pts = x /\
+    wcov (dev_rows x pts) (dev_rows x pts) w None = P.
+Proof. exact ukf_sigma_points_reproduce_moments. Qed.
+
 (* covariance validity whenever the centre weight k/(n+k) is non-negative: every dimension, every
    (nonlinear) system; the call returns (no assert fails) and the result is symmetric positive definite *)
 Theorem C13_ukf_cov_symmetric_pd :
@@ -101,6 +174,34 @@ Theorem C13_ukf_cov_symmetric_pd :
   SPD n P -> length x = n -> 0 <= k -> 0 < IZR (Z.of_nat n) + k ->
   exists x' P', ukf_forward pinv msqrt s Q Rm x y u P k = Some (x', P') /\ length x' = n /\ SPD n P'.
 Proof. exact ukf_cov_spd. Qed.
+
+(* on LINEAR systems the UKF covariance is symmetric positive definite for EVERY k > -n (negative centre
+   weights included), and the call returns *)
+Theorem C13_ukf_linear_cov_spd_any_k :
+  forall (n m p : nat) (pinv msqrt : matR -> matR) (A B C D : matR) (c1 c2 : list R)
+         (Q Rm : matR) (x y u : list R) (P : matR) (k : R),
+  pinv_ok m pinv -> factor_ok n msqrt ->
+  wf n n A -> wf n p B -> wf m n C -> wf m p D -> length c1 = n -> length c2 = m ->
+  SPD n Q -> SPD m Rm -> SPD n P -> length x = n -> length u = p ->
+  0 < IZR (Z.of_nat n) + k ->
+  exists x' P', ukf_forward pinv msqrt (lin_system A B C D c1 c2) Q Rm x y u P k = Some (x', P') /\
+                length x' = n /\ SPD n P'.
+Proof. exact ukf_linear_cov_spd_any_k. Qed.
+
+(* the condition "centre weight non-negative" is sharp: n = 1, k = -1/2 (> -n, centre weight -1), f(x) = x^2,
+   x = 0, P = 2, Q = 1: the predicted covariance handed to the second sigma_weight_points is -1
+   (torch.linalg.cholesky raises there) *)
+Theorem C13_ukf_negative_centre_weight_cov_refuted :
+  exists (s : @system R) (Q P : matR) (x u : list R) (k : R),
+    SPD 1 Q /\ SPD 1 P /\ length x = 1%nat /\ - 1 < k < 0 /\
+    (forall p u, length p = 1%nat -> length (sf s p u) = 1%nat) /\
+    forall msqrt, cholesky_ok 1 msqrt ->
+      exists xe Pm, ukf_predict msqrt s Q x u P k = Some (xe, Pm) /\ ~ PSD 1 Pm.
+Proof. exact ukf_negative_centre_weight_cov_refuted. Qed.
+Theorem C13_ukf_negative_centre_weight_witness :
+  forall msqrt, cholesky_ok 1 msqrt ->
+  ukf_predict msqrt sq_system [[1]] [0] [0] [[2]] (-1/2) = Some ([2], [[-1]]).
+Proof. exact ukf_negative_centre_weight_witness. Qed.
 
 (* ------------------------------------------------------------------ PF *)
 Theorem C13_pf_cov_symmetric_psd :
@@ -119,6 +220,113 @@ Theorem C13_pf_lognorm_irrelevant :
   forall (pinv msqrt : matR -> matR) (ln1 ln2 : matR -> R) (s : @system R) Q Rm x y u P eps r,
   pf_forward pinv msqrt ln1 s Q Rm x y u P eps r = pf_forward pinv msqrt ln2 s Q Rm x y u P eps r.
 Proof. intros. exact (pf_forward_lognorm_irrelevant pinv msqrt ln1 ln2 true s Q Rm x y u P eps r). Qed.
+
+(* PF.forward itself: >= 1 particle (eps, r non-empty), uniforms <= 1 (torch.rand draws from [0,1)), f keeps the
+   state dimension.  The call returns (no index reaches the particle count), the estimate has the state
+   dimension, the covariance is symmetric PSD, and positive definite when Q is.  Nothing is assumed of
+   pinv, msqrt, R, P (the real Cholesky needs P positive definite: that is what a run feeds back). *)
+Theorem C13_pf_forward_returns_valid :
+  forall (pinv msqrt : matR -> matR) (lognorm : matR -> R) (n : nat), (0 < n)%nat ->
+  forall (s : @system R) (Q Rm : matR), wf n n Q -> msym Q -> PSD n Q ->
+  forall (x y u : list R) (P eps : matR) (r : list R),
+  length x = n -> (forall p, length p = n -> length (sf s p u) = n) ->
+  eps <> [] -> r <> [] -> (forall ri, In ri r -> ri <= 1) ->
+  exists x' P', pf_forward pinv msqrt lognorm s Q Rm x y u P eps r = Some (x', P') /\
+                length x' = n /\ wf n n P' /\ msym P' /\ PSD n P' /\ (PD n Q -> SPD n P').
+Proof. exact pf_forward_returns_valid. Qed.
+
+(* the weights PF.forward resamples with are the Gaussian likelihoods of y at the observed PROPAGATED
+   particles, normalised:  q_i = exp(-1/2 d_i^T pinv(R) d_i) / sum_j exp(-1/2 d_j^T pinv(R) d_j),
+   d_i = y - h(f(xp_i, u), u)   ([gauss_kernel Ri y yi] = exp (- (1/2) * qform Ri (vminus y yi))) *)
+Theorem C13_pf_weights_are_normalised_likelihoods :
+  forall (pinv msqrt : matR -> matR) (lognorm : matR -> R) (s : @system R) (Q Rm : matR)
+         (x y u : list R) (P : matR) (eps : matR) (r : list R),
+  let xs := map (fun p => sf s p u) (pf_particles msqrt x P eps) in
+  let ye := map (fun p => sh s p u) xs in
+  let q := map (fun yi => gauss_kernel (pinv Rm) y yi / fold_left add (map (gauss_kernel (pinv Rm) y) ye) 0) ye in
+  pf_forward pinv msqrt lognorm s Q Rm x y u P eps r = pf_estimate q xs r Q.
+Proof. exact pf_forward_weights. Qed.
+
+(* resampling is the inverse-CDF rule: for non-negative weights, torch.searchsorted(cumsum q, r) = i exactly when
+   q_0 + .. + q_(i-1) < r <= q_0 + .. + q_i  (no lower condition for i = 0);  [psum q i] = q_0 + .. + q_(i-1) *)
+Theorem C13_pf_resampling_rule :
+  forall (q : list R) (r : R) (i : nat), (forall b, In b q -> 0 <= b) -> (i < length q)%nat ->
+  (searchsorted (cumsum q) r = i <-> (i = 0%nat \/ psum q i < r) /\ r <= psum q (S i)).
+Proof. exact searchsorted_cumsum_spec. Qed.
+
+(* resampling is unbiased: for r uniform on [0, total weight] and ANY function g of the selected index,
+   E[g(index)] = sum_i q_i g(i); particle i is selected with probability q_i; with the weights of PF.forward
+   (a softmax: total 1) the expected resampled particle is the weighted mean sum_i q_i xs_i *)
+Theorem C13_pf_resampling_unbiased :
+  (forall (q : list R) (g : nat -> R), (forall b, In b q -> 0 <= b) ->
+     is_RInt (fun r => g (searchsorted (cumsum q) r)) 0 (fold_left add q 0)
+             (sumn (length q) (fun i => vget q i * g i))) /\
+  (forall (q : list R) (i : nat), (forall b, In b q -> 0 <= b) -> (i < length q)%nat ->
+     is_RInt (fun r => if Nat.eqb (searchsorted (cumsum q) r) i then 1 else 0) 0 (fold_left add q 0) (vget q i)) /\
+  (forall (l : list R) (xs : matR) (j : nat), l <> [] ->
+     is_RInt (fun r => mget xs (searchsorted (cumsum (softmax l)) r) j) 0 1
+             (sumn (length l) (fun i => vget (softmax l) i * mget xs i j))).
+Proof.
+  split; [exact resample_expectation | split; [exact resample_probability | exact resample_expected_particle]].
+Qed.
+
+(* the Monte-Carlo rate of the resampling stage.  [isEN N F v]: the N-fold iterated Riemann integral of F over
+   [0,1]^N (the expectation over N independent uniform draws) exists and equals v (unique: isEN_unique);
+   [pf_estimate_component q xs Q j l] = component j of the estimate pf_estimate returns for the uniforms l.
+   For non-negative weights of total 1 (PF.forward: a softmax) the estimate is unbiased for the weighted mean
+   mu = sum_i q_i xs_i[j] and its variance is sigma^2 / N, sigma^2 = sum_i q_i (xs_i[j] - mu)^2 *)
+Theorem C13_pf_estimate_mc_rate :
+  forall n (q : list R) (xs Q : matR) (j N : nat),
+  (forall b, In b q -> 0 <= b) -> fold_left add q 0 = 1 -> q <> [] -> length q = length xs ->
+  (forall p, In p xs -> length p = n) -> (0 < n)%nat -> wf n n Q -> (j < n)%nat -> (0 < N)%nat ->
+  let mu := sumn (length q) (fun i => vget q i * mget xs i j) in
+  let var := sumn (length q) (fun i => vget q i * ((mget xs i j - mu) * (mget xs i j - mu))) in
+  isEN N (pf_estimate_component q xs Q j) mu /\
+  isEN N (fun l => (pf_estimate_component q xs Q j l - mu) * (pf_estimate_component q xs Q j l - mu)) (var / INR N).
+Proof. exact pf_estimate_mc_rate. Qed.
+Theorem C13_pf_expectation_well_defined :
+  forall N F v1 v2, isEN N F v1 -> isEN N F v2 -> v1 = v2.
+Proof. exact isEN_unique. Qed.
+
+(* what pf_estimate returns: resampling keeps the particle count N = number of uniforms and returns existing
+   particles only; the estimate is the mean of the resampled particles, i.e. the weighted mean of ALL
+   propagated particles with the empirical weights count_i / N (which sum to 1); the covariance is
+   Q + the mean outer product of the deviations from the estimate *)
+Theorem C13_pf_estimate_is_weighted_mean :
+  forall n (q : list R) (xs : matR) (r : list R) (Q : matR) x' P',
+  (forall p, In p xs -> length p = n) -> (0 < n)%nat -> r <> [] -> wf n n Q ->
+  pf_estimate q xs r Q = Some (x', P') ->
+  let N := length r in
+  let idx := map (searchsorted (cumsum q)) r in
+  let xr := map (fun i => nth i xs []) idx in
+  let cnt := fun i => INR (count_occ Nat.eq_dec idx i) in
+  length xr = N /\ (forall p, In p xr -> In p xs) /\
+  (forall j, (j < n)%nat -> vget x' j = 1 / INR N * sumn N (fun t => mget xr t j)) /\
+  (forall j, (j < n)%nat -> vget x' j = sumn (length xs) (fun i => cnt i / INR N * mget xs i j)) /\
+  sumn (length xs) (fun i => cnt i / INR N) = 1 /\
+  (forall a b, (a < n)%nat -> (b < n)%nat ->
+     mget P' a b = mget Q a b + 1 / INR N * sumn N (fun t => (mget xr t a - vget x' a) * (mget xr t b - vget x' b))).
+Proof. exact pf_estimate_spec. Qed.
+
+(* generate_particles: the particles are x + L eps_t with L L^T = n P (any factor oracle): their deviations from
+   x are eps L^T, their scatter L (eps^T eps) L^T; draws with eps^T eps = c I give the scatter c n P, i.e.
+   the documented prior N(x, nP) *)
+Theorem C13_pf_particles_prior :
+  forall (msqrt : matR -> matR) (n N : nat), factor_ok n msqrt ->
+  forall (x : list R) (P eps : matR), length x = n -> SPD n P -> wf N n eps ->
+  let L := msqrt (mscale (ofnat n) P) in
+  let D := map (fun p => vminus p x) (pf_particles msqrt x P eps) in
+  mmul L (mtr L) = mscale (ofnat n) P /\
+  D = mmul eps (mtr L) /\
+  mmul (mtr D) D = mmul (mmul L (mmul (mtr eps) eps)) (mtr L) /\
+  (forall c, mmul (mtr eps) eps = mscale c (mid n) -> mmul (mtr D) D = mscale (c * ofnat n) P).
+Proof.
+  intros msqrt n N Hs x P eps Hx HP He. cbv zeta.
+  split; [exact (proj2 (part_L msqrt n Hs P HP))|].
+  split; [exact (particle_deviations msqrt n N Hs x P eps Hx HP He)|].
+  split; [exact (particle_scatter msqrt n N Hs x P eps Hx HP He)|].
+  exact (particle_scatter_identity msqrt n N Hs x P eps Hx HP He).
+Qed.
 
 (* ------------------------------------------------------------------ runs *)
 Theorem C13_run_is_fold :
@@ -148,6 +356,78 @@ Theorem C13_ukf_run_cov_valid :
   forall steps x P, SPD n P -> length x = n ->
   exists x' P', ukf_run pinv msqrt s Q Rm k (Some (x, P)) steps = Some (x', P') /\ length x' = n /\ SPD n P'.
 Proof. exact ukf_run_cov_valid. Qed.
+
+(* positive definite Q: the EKF covariance stays symmetric positive DEFINITE along every run *)
+Theorem C13_ekf_run_cov_spd :
+  forall (pinv : matR -> matR) n m (s : @system R) Q Rm,
+  pinv_ok m pinv ->
+  (forall x u, wf n n (sA s x u)) -> (forall x u, wf m n (sC s x u)) ->
+  SPD n Q -> SPD m Rm ->
+  forall steps x P, SPD n P -> SPD n (snd (ekf_run pinv s Q Rm (x, P) steps)).
+Proof. exact ekf_run_cov_spd. Qed.
+
+(* histories on linear systems: [kf_run] = the fold of [kf_step].  One Kalman step keeps (length x = n, P SPD);
+   an EKF run IS the Kalman run, a UKF run (every k > -n, any factor oracle) IS the Kalman run -- every length *)
+Theorem C13_kf_step_invariant :
+  forall (pinv : matR -> matR) (n m p : nat) (A B C D : matR) (c1 c2 : list R) (Q Rm : matR) (x y u : list R) (P : matR),
+  pinv_ok m pinv -> wf n n A -> wf m n C -> SPD n Q -> SPD m Rm -> SPD n P ->
+  length (fst (kf_step pinv A B C D c1 c2 Q Rm x y u P)) = n /\
+  SPD n (snd (kf_step pinv A B C D c1 c2 Q Rm x y u P)).
+Proof. exact kf_step_invariant. Qed.
+
+Theorem C13_ekf_run_linear_is_kf_run :
+  forall (pinv : matR -> matR) (n m : nat) (A B C D : matR) (c1 c2 : list R) (Q Rm : matR),
+  pinv_ok m pinv -> wf n n A -> wf m n C -> SPD n Q -> SPD m Rm ->
+  forall steps x P, SPD n P ->
+  ekf_run pinv (lin_system A B C D c1 c2) Q Rm (x, P) steps = kf_run pinv A B C D c1 c2 Q Rm (x, P) steps.
+Proof. exact ekf_run_linear_is_kf_run. Qed.
+
+Theorem C13_ukf_run_linear_is_kf_run :
+  forall (pinv msqrt : matR -> matR) (n m p : nat) (A B C D : matR) (c1 c2 : list R) (Q Rm : matR) (k : R),
+  pinv_ok m pinv -> factor_ok n msqrt ->
+  wf n n A -> wf n p B -> wf m n C -> wf m p D -> length c1 = n -> length c2 = m ->
+  SPD n Q -> SPD m Rm -> 0 < IZR (Z.of_nat n) + k ->
+  forall steps x P, SPD n P -> length x = n -> Forall (fun yu => length (snd yu) = p) steps ->
+  ukf_run pinv msqrt (lin_system A B C D c1 c2) Q Rm k (Some (x, P)) steps =
+  Some (kf_run pinv A B C D c1 c2 Q Rm (x, P) steps).
+Proof. exact ukf_run_linear_is_kf_run. Qed.
+
+Theorem C13_ekf_ukf_runs_agree_linear :
+  forall (pinv msqrt : matR -> matR) (n m p : nat) (A B C D : matR) (c1 c2 : list R) (Q Rm : matR) (k : R),
+  pinv_ok m pinv -> factor_ok n msqrt ->
+  wf n n A -> wf n p B -> wf m n C -> wf m p D -> length c1 = n -> length c2 = m ->
+  SPD n Q -> SPD m Rm -> 0 < IZR (Z.of_nat n) + k ->
+  forall steps x P, SPD n P -> length x = n -> Forall (fun yu => length (snd yu) = p) steps ->
+  ukf_run pinv msqrt (lin_system A B C D c1 c2) Q Rm k (Some (x, P)) steps =
+  Some (ekf_run pinv (lin_system A B C D c1 c2) Q Rm (x, P) steps).
+Proof. exact ekf_ukf_runs_agree_linear. Qed.
+
+(* particle-filter runs ([pf_run] = the fold of pf_forward over (y, u, normal draws, uniform draws);
+   [pf_input_ok] = >= 1 particle, uniforms <= 1): every run of any length returns, and the covariance stays
+   symmetric positive definite (so the next MultivariateNormal(x, nP) is well defined) *)
+Theorem C13_pf_run_cov_valid :
+  forall (pinv msqrt : matR -> matR) (lognorm : matR -> R) n (s : @system R) (Q Rm : matR),
+  (0 < n)%nat -> (forall p u, length p = n -> length (sf s p u) = n) -> SPD n Q ->
+  forall steps x P, length x = n -> SPD n P -> Forall pf_input_ok steps ->
+  exists x' P', pf_run pinv msqrt lognorm s Q Rm (Some (x, P)) steps = Some (x', P') /\ length x' = n /\ SPD n P'.
+Proof. exact pf_run_cov_valid. Qed.
+
+(* ------------------------------------------------------------------ the specification [kf_update] *)
+(* [map_cost Pmi Ri C D c2 xm y u z] = (z - xm)^T Pmi (z - xm) + (y - (C z + D u + c2))^T Ri (y - (C z + D u + c2)):
+   the negative log posterior of the linear-Gaussian model (up to constants).  The mean returned by kf_update
+   is its unique minimiser and the covariance is the inverse Hessian ([pinvn] = any inverse oracle for n x n) *)
+Theorem C13_kf_update_is_map_estimate :
+  forall (pinv pinvn : matR -> matR) (n m p : nat) (Pm C D Rm : matR) (c2 xm y u : list R),
+  pinv_ok m pinv -> pinv_ok n pinvn -> SPD n Pm -> wf m n C -> wf m p D -> length c2 = m -> SPD m Rm ->
+  length xm = n -> length y = m -> length u = p ->
+  let x' := fst (kf_update pinv C D c2 Rm xm Pm u y) in
+  let P' := snd (kf_update pinv C D c2 Rm xm Pm u y) in
+  let J := map_cost (pinvn Pm) (pinv Rm) C D c2 xm y u in
+  length x' = n /\
+  (forall z, length z = n -> J x' <= J z) /\
+  (forall z, length z = n -> J z = J x' -> z = x') /\
+  mmul P' (madd (pinvn Pm) (mmul (mmul (mtr C) (pinv Rm)) C)) = mid n.
+Proof. exact kf_update_is_map. Qed.
 
 (* ------------------------------------------------------------------ history: the code before the repairs *)
 (* old EKF (innovation at the pre-transition state): n = 2, m = 1, A = [[1,1],[0,1]], B = [[0],[1]],
@@ -184,12 +464,58 @@ Proof. exact ukf_witness2_values. Qed.
 Theorem C13_ukf_old_predict_linear_is_kf_predict_refuted : ~ ukf_old_predict_linear_is_kf_predict.
 Proof. exact ukf_old_predict_linear_is_kf_predict_refuted. Qed.
 
+(* old PF (before b057b94: the propagated particles weighted by the likelihood at the observation of the particles
+   BEFORE the transition): f(x) = -x, h(x) = x, x = 0, P = Q = R = 1, y = 1, normal draws (1, -1), uniform draw 1/2:
+   the code as it is returns the estimate 1 (the propagated particle that explains y), the old code -1;
+   for every pinv / Cholesky oracle satisfying the contracts *)
+Theorem C13_pf_old_witness :
+  forall (pinv msqrt : matR -> matR) (lognorm : matR -> R), pinv_ok 1 pinv -> cholesky_ok 1 msqrt ->
+  (exists P1, pf_forward pinv msqrt lognorm neg_system [[1]] [[1]] [0] [1] [0] [[1]] [[1]; [-1]] [1/2] = Some ([1], P1)) /\
+  (exists P2, pf_forward_old pinv msqrt lognorm neg_system [[1]] [[1]] [0] [1] [0] [[1]] [[1]; [-1]] [1/2] = Some ([-1], P2)).
+Proof. exact pf_old_witness. Qed.
+Theorem C13_pf_old_weights_at_propagated_refuted :
+  pf_weights_at_propagated_for (fun pinv msqrt ln => pf_forward pinv msqrt ln) /\
+  ~ pf_weights_at_propagated_for (fun pinv msqrt ln => pf_forward_old pinv msqrt ln).
+Proof. split; [exact pf_weights_at_propagated_holds | exact pf_old_weights_at_propagated_refuted]. Qed.
+
 (* ------------------------------------------------------------------ the contracts are satisfiable *)
 Example C13_pinv_contract_satisfiable : pinv_ok 1 (fun M => [[1 / mget M 0 0]]).
 Proof. exact pinv_ok_1_satisfiable. Qed.
 Example C13_cholesky_contract_satisfiable :
   cholesky_ok 1 (fun M => [[sqrt (mget M 0 0)]]) /\ cholesky_ok 2 chol2.
 Proof. split; [exact cholesky_ok_1_satisfiable | exact cholesky_ok_2_satisfiable]. Qed.
+
+Example C13_pinv_contract_satisfiable_2 : pinv_ok 2 inv2.
+Proof. exact pinv_ok_2_satisfiable. Qed.
+(* one concrete nonlinear instance (n = m = 2: f(p) = (p0 + p1^2, p1), h(p) = (p0 p1, p1)) satisfies every
+   hypothesis of the covariance / run theorems above at once *)
+Example C13_hypotheses_jointly_satisfiable :
+  pinv_ok 2 inv2 /\ cholesky_ok 2 chol2 /\ factor_ok 2 chol2 /\
+  (forall x u, wf 2 2 (sA nl2_system x u)) /\ (forall x u, wf 2 2 (sC nl2_system x u)) /\
+  (forall p u, length p = 2%nat -> length (sf nl2_system p u) = 2%nat) /\
+  (forall p u, length p = 2%nat -> length (sh nl2_system p u) = 2%nat) /\
+  SPD 2 Q2 /\ SPD 2 I2 /\ SPD 2 P2 /\ 0 <= 1 /\ 0 < IZR (Z.of_nat 2) + 1 /\
+  pf_input_ok ([0; 0], [0], [[1; 0]; [0; 1]], [1/2; 1/3]).
+Proof. exact C13_hypotheses_satisfiable. Qed.
+
+(* EVERY dimension: an explicit inverse [invR n] and an explicit lower Cholesky factor [cholR n] (recursion on the
+   dimension through the Schur complement) satisfy the contracts, and the identity is SPD: no theorem above
+   that assumes pinv_ok / cholesky_ok / factor_ok / SPD is vacuous in any dimension *)
+Theorem C13_contracts_satisfiable_every_dimension :
+  forall n, (0 < n)%nat ->
+  pinv_ok n (invR n) /\ cholesky_ok n (cholR n) /\ factor_ok n (cholR n) /\ SPD n (mid n).
+Proof.
+  intros n Hn. split; [apply pinv_ok_all | split; [apply cholesky_ok_all | split; [apply factor_ok_all | now apply SPD_mid]]].
+Qed.
+
+(* the weight hypotheses of the PF theorems are exactly what a softmax provides; a concrete instance *)
+Example C13_pf_weight_hypotheses_satisfiable :
+  (forall l : list R, l <> [] ->
+     (forall b, In b (softmax l) -> 0 <= b) /\ fold_left add (softmax l) 0 = 1 /\ softmax l <> [] /\
+     length (softmax l) = length l) /\
+  ((forall b, In b [1/2; 1/2] -> 0 <= b) /\ fold_left add [1/2; 1/2] 0 = 1 /\ [1/2; 1/2] <> [] /\
+   length [1/2; 1/2] = length [[0]; [1]] /\ (forall p, In p [[0]; [1]] -> length p = 1%nat) /\ wf 1 1 [[1]]).
+Proof. split; [exact softmax_weights_ok | exact mc_rate_hypotheses_satisfiable]. Qed.
 
 Print Assumptions C13_ekf_linear_is_kf.
 Print Assumptions C13_ekf_nonlinear_is_documented_recursion.
@@ -213,3 +539,31 @@ Print Assumptions C13_ukf_old_sigma_points_witness.
 Print Assumptions C13_ukf_old_predict_linear_is_kf_predict_refuted.
 Print Assumptions C13_pinv_contract_satisfiable.
 Print Assumptions C13_cholesky_contract_satisfiable.
+Print Assumptions C13_ekf_linear_is_kf_shapes_only.
+Print Assumptions C13_ekf_is_kf_of_linearisation.
+Print Assumptions C13_ekf_cov_symmetric_pd.
+Print Assumptions C13_ukf_negative_centre_weight_cov_refuted.
+Print Assumptions C13_ukf_negative_centre_weight_witness.
+Print Assumptions C13_pf_forward_returns_valid.
+Print Assumptions C13_pf_weights_are_normalised_likelihoods.
+Print Assumptions C13_pf_resampling_rule.
+Print Assumptions C13_pf_resampling_unbiased.
+Print Assumptions C13_pf_estimate_is_weighted_mean.
+Print Assumptions C13_pf_particles_prior.
+Print Assumptions C13_ekf_run_cov_spd.
+Print Assumptions C13_kf_step_invariant.
+Print Assumptions C13_ekf_run_linear_is_kf_run.
+Print Assumptions C13_ukf_run_linear_is_kf_run.
+Print Assumptions C13_ekf_ukf_runs_agree_linear.
+Print Assumptions C13_pf_run_cov_valid.
+Print Assumptions C13_pinv_contract_satisfiable_2.
+Print Assumptions C13_hypotheses_jointly_satisfiable.
+Print Assumptions C13_contracts_satisfiable_every_dimension.
+Print Assumptions C13_ukf_linear_cov_spd_any_k.
+Print Assumptions C13_kf_update_is_map_estimate.
+Print Assumptions C13_ukf_sigma_points_reproduce_moments.
+Print Assumptions C13_pf_estimate_mc_rate.
+Print Assumptions C13_pf_expectation_well_defined.
+Print Assumptions C13_pf_weight_hypotheses_satisfiable.
+Print Assumptions C13_pf_old_witness.
+Print Assumptions C13_pf_old_weights_at_propagated_refuted.
